@@ -27,6 +27,8 @@ structure TreeInv (st : St) : Prop where
   up : ∀ c, c < st.scopes.length → ∀ p, (st.scope c).parent = some p → p < c ∧ c ∈ (st.scope p).children
   /-- children come after their parent and exist -/
   down : ∀ p, p < st.scopes.length → ∀ c ∈ (st.scope p).children, p < c ∧ c < st.scopes.length
+  /-- the root exists and is the only scope without a parent -/
+  root : 0 < st.scopes.length ∧ ∀ c, c < st.scopes.length → ((st.scope c).parent = none ↔ c = 0)
 
 theorem TreeInv.init : TreeInv ({} : St) where
   up c hc p hp := by
@@ -35,6 +37,12 @@ theorem TreeInv.init : TreeInv ({} : St) where
   down p hp c hc := by
     have : p = 0 := by simp at hp; omega
     subst this; simp [St.scope] at hc
+  root := by
+    refine ⟨by decide, ?_⟩
+    intro c hc
+    have : c = 0 := by simp at hc; omega
+    subst this
+    simp [St.scope]
 
 theorem TreeInv.up' {st : St} (h : TreeInv st) (c : Nat) (sc : ScopeSt) (hs : st.scopes[c]? = some sc) (p : Nat)
     (hp : sc.parent = some p) : p < c ∧ ∃ psc : ScopeSt, st.scopes[p]? = some psc ∧ c ∈ psc.children := by
@@ -60,6 +68,7 @@ theorem TreeInv.transfer {a b : St} (h : TreeInv a) (hl : b.scopes.length = a.sc
     rw [(hs p).2] at hc
     rw [hl]
     exact h.down p (by rw [← hl]; exact hp) c hc
+  root := ⟨by rw [hl]; exact h.root.1, fun c hc => by rw [(hs c).1]; exact h.root.2 c (by rw [← hl]; exact hc)⟩
 
 /-- `x` is `a` or one of its descendants -/
 inductive Desc (st : St) (a : Nat) : Nat → Prop where
@@ -237,7 +246,7 @@ theorem TreeInv.scope {st : St} (h : TreeInv st) (parent : Nat) (hp : parent < s
       split
       · rename_i h2; subst h2; intro x hx; simp [hx]
       · exact fun x hx => hx
-  refine ⟨?_, ?_⟩
+  refine ⟨?_, ?_, ?_⟩
   · intro c hc p hpar
     rw [hlen] at hc
     rw [hsc c] at hpar
@@ -278,5 +287,19 @@ theorem TreeInv.scope {st : St} (h : TreeInv st) (parent : Nat) (hp : parent < s
       · rw [if_neg h2] at hc
         obtain ⟨a1, a2⟩ := h.down p hp' c hc
         exact ⟨a1, by omega⟩
+  · refine ⟨by rw [hlen]; omega, ?_⟩
+    intro c hc
+    rw [hlen] at hc
+    rw [hsc c]
+    by_cases h1 : c = st.scopes.length
+    · rw [if_pos h1]
+      constructor
+      · intro hh; cases hh
+      · intro hh; have := h.root.1; omega
+    · rw [if_neg h1]
+      have hc' : c < st.scopes.length := by omega
+      split
+      · rename_i h2; rw [h2]; exact h.root.2 parent hp
+      · exact h.root.2 c hc'
 
 end Dig
